@@ -159,8 +159,9 @@ def install(R):
                 raise Unsupported("%s on %r" % (method, X))
             st = recv.fields["$state"]
             fs = X.snapshot()
-            E.trace.append(dict(op=method, obj=recv, X=X, state=st))
-            return NdArr.from_fn(method, (X.shape[0],), "real", lambda r: predF(st, row_of(E, fs, r)))
+            out_ = NdArr.from_fn(method, (X.shape[0],), "real", lambda r: predF(st, row_of(E, fs, r)))
+            E.trace.append(dict(op=method, obj=recv, X=X, state=st, result=out_))
+            return out_
         return m
     R.methods[("estimator", "predict")] = rowwise1("predict")
 
@@ -176,9 +177,10 @@ def install(R):
             if wd is None:
                 wd = widthF[method](st)
                 E.assume(wd >= 1)
-            E.trace.append(dict(op=method, obj=recv, X=X, state=st))
-            return NdArr.from_fn(method, (X.shape[0], wd), "real",
+            out_ = NdArr.from_fn(method, (X.shape[0], wd), "real",
                                  lambda r, c: out2F[method](st, row_of(E, fs, r), c))
+            E.trace.append(dict(op=method, obj=recv, X=X, state=st, result=out_))
+            return out_
         return m
     for mname in ("predict_proba", "transform", "decision_function"):
         R.methods[("estimator", mname)] = rowwise2(mname)
@@ -342,7 +344,14 @@ def install(R):
             ta, tb = term2c(E, a), term1c(E, b)
             E.ps.setdefault("matmul", []).append((a, b, ta, tb))
             return NdArr.from_fn("matmul", (a.shape[0],), "real", lambda r: dotF(ta, tb, r))
+        if isinstance(a, NdArr) and isinstance(b, NdArr) and a.ndim == 2 and b.ndim == 2:
+            # matrix product: entry (r, c) is a ghost function of row r of a and column c of b (no algebra is assumed about it)
+            from .npmodel import shapes_equal
+            shapes_equal(E, (a.shape[1],), (b.shape[0],), node, "matmul-shape")
+            ta, tb = term2c(E, a), term2c(E, b)
+            return NdArr.from_fn("matmul2", (a.shape[0], b.shape[1]), "real", lambda r, c: dot2F(ta, tb, r, c))
         raise Unsupported("matmul of %r and %r" % (a, b))
+    dot2F = z3.Function("dot2", RA2, RA2, z3.IntSort(), z3.IntSort(), z3.RealSort())
     R.matmul = matmul
 
     maeF = z3.Function("mean_absolute_error", RA1, RA1, RA1, z3.BoolSort(), z3.RealSort())
